@@ -26,7 +26,11 @@ def run(ctx, replay, mode=MODE):
         g = ctx.tlc("Session", "MCSession.cfg", consts={"Tier": "guard", "Emit": False, b: True}, expect_ok=False, timeout=300, name="MCSession-" + b)
         if not g["violated"]:
             raise vcheck.Infra("vacuity guard %s: %s" % (b, g["out"][-1500:]))
-    ctx.harness(binary, cases=cases, n=(400 if ctx.tier == "thorough" else 60), extra=mode)
+    s = ctx.harness(binary, cases=cases, n=(400 if ctx.tier == "thorough" else 60), extra=mode)
+    cnt = s.get("counters") or {}
+    if mode == MODE and not (ctx.violations or (cnt.get("listings_with_source", 0) > 0 and cnt.get("disassemblies", 0) > 0)):
+        raise vcheck.Infra("the directed histories over source listings / disassembly produced no listing (%s): objdump or the test binary is missing"
+                           % {k: cnt.get(k) for k in ("listings_with_source", "disassemblies")})
     if mode == MODE:
         # whole runs against Pprof.tla: every report's numbers are those of the pristine merged profile under the
         # options in effect (absolute oracle, complementing the fresh-session comparison above)
